@@ -44,7 +44,7 @@ def JS(driver, variant, mode, quick, thorough, masks, macro='VF_CFG_MASK', **kw)
     return out
 
 
-M4 = [0x03, 0x0c, 0x30, 0x2c0]
+M4 = [0x03, 0x0c, 0x30, 0x6c0]
 CHECKS = {}
 
 CHECKS['C01'] = dict(
@@ -255,11 +255,13 @@ CHECKS['C12'] = dict(
     title='Filters and canContinueInvoking gate every dispatch, synchronous or queued',
     level='exploration',
     rule='13 configurations (MixinFilter on EventDispatcher/EventQueue with by-value and by-reference prototypes, two mixins in both orders, a mixin without interceptor before/after MixinFilter, '
-         'MixinHeterFilter on HeterEventDispatcher, canContinueInvoking policies on CallbackList/EventDispatcher/EventQueue, conditionalFunctor and argumentAdapter listeners incl. shared_ptr casts) x '
+         'MixinHeterFilter on HeterEventDispatcher, canContinueInvoking policies on CallbackList/EventDispatcher/EventQueue (taking int&, const&, forwarding template; and - in drv_cblist configuration 9 - a by-value std::string '
+         'parameter on a by-value prototype, where handing the policy an rvalue would empty the argument for later listeners), conditionalFunctor and argumentAdapter listeners incl. shared_ptr casts) x '
          'seeded histories of filter/listener additions and removals and dispatches direct and queued (process/processOne/processIf), scripted filters that rewrite and veto, nested operations from inside '
          'filters/listeners; every filter and listener call is compared online with the model (order, arguments as seen, stop rules); non-triviality per configuration family (a dispatch blocked at chain '
          'position >0 or a rewrite verified downstream; a queued dispatch; a canContinue cut-off; adapter + both condition outcomes); distinct = trace hash + configuration',
-    jobs=JS('drv_filter', 'asan17', 'c12', 30000, 600000, MF, shards=3, shards_thorough=6) + JS('drv_filter', 'clang-asan17', 'deep', 8000, 200000, MF, seed_offset=1, shards=3, shards_thorough=6),
+    jobs=JS('drv_filter', 'asan17', 'c12', 30000, 600000, MF, shards=3, shards_thorough=6) + JS('drv_filter', 'clang-asan17', 'deep', 8000, 200000, MF, seed_offset=1, shards=3, shards_thorough=6)
+         + [J('drv_cblist', 'asan', 'c02', 20000, 300000, defs=['-DVF_CFG_MASK=0x400'], seed_offset=2, shards=8, shards_thorough=16)],
     assumptions=['return values of removeFilter/removeListener/process are resynchronised, not asserted', 'listeners/filters are only added while no open dispatch is in its filter phase'],
     technique='online differential monitor (filter chain + listener model) over a configuration product, g++ and clang++, ASan+UBSan',
     level_text='Exploration: every filter and listener invocation of tens of thousands of generated dispatch histories is checked against the gate rules of the statement.',
